@@ -32,6 +32,9 @@ for k in sorted(os.listdir(sd)):
     finally:
         subprocess.run(["git", "-C", "/repo", "checkout", "--", "."])
     print(rows[-1], f"{time.time() - t0:.0f}s", flush=True)
+if only:
+    print("partial run: REGRESSION.md left as it is")
+    sys.exit(0)
 with open(os.path.join(sd, "REGRESSION.md"), "w", encoding="utf-8") as f:
     f.write("# Archived seeded changes against the current checks\n\n")
     f.write(f"/repo at {subprocess.run(['git', '-C', '/repo', 'log', '--format=%h', '-1'], capture_output=True, text=True).stdout.strip()}; "
